@@ -5,7 +5,7 @@ use pyo3::{
 };
 
 use crate::{
-    constants::{DAYS_PER_MONTHS, SECS_PER_DAY, SECS_PER_HOUR, SECS_PER_MIN},
+    constants::{DAYS_PER_MONTHS, EPOCH_YEAR, SECS_PER_DAY, SECS_PER_HOUR, SECS_PER_MIN},
     helpers,
 };
 
@@ -23,6 +23,30 @@ struct DateTimeInfo<'py> {
     pub offset: i32,
     pub tz: &'py str,
     pub is_datetime: bool,
+}
+
+impl DateTimeInfo<'_> {
+    /// Replaces the date and time fields by their UTC counterparts,
+    /// properly carried over minutes, hours, days, months and years.
+    fn shift_to_utc(&mut self) {
+        let days = helpers::day_number(self.year, self.month as u8, self.day as u8)
+            - helpers::day_number(EPOCH_YEAR as i32, 1, 1);
+        let seconds = self.hour * SECS_PER_HOUR as i32
+            + self.minute * SECS_PER_MIN as i32
+            + self.second
+            - self.offset;
+        let timestamp = i64::from(days) * SECS_PER_DAY as i64 + i64::from(seconds);
+        let (year, month, day, hour, minute, second, _) =
+            helpers::local_time(timestamp as f64, 0, 0);
+
+        self.year = year as i32;
+        self.month = month as i32;
+        self.day = day as i32;
+        self.hour = hour as i32;
+        self.minute = minute as i32;
+        self.second = second as i32;
+        self.offset = 0;
+    }
 }
 
 impl PartialEq for DateTimeInfo<'_> {
@@ -196,35 +220,7 @@ pub fn precise_diff<'py>(
         dtinfo1.microsecond = dt1dt.get_microsecond() as i32;
 
         if !in_same_tz && dtinfo1.offset != 0 || total_days == 0 {
-            dtinfo1.hour -= dtinfo1.offset / SECS_PER_HOUR as i32;
-            dtinfo1.offset %= SECS_PER_HOUR as i32;
-            dtinfo1.minute -= dtinfo1.offset / SECS_PER_MIN as i32;
-            dtinfo1.offset %= SECS_PER_MIN as i32;
-            dtinfo1.second -= dtinfo1.offset;
-
-            if dtinfo1.second < 0 {
-                dtinfo1.second += 60;
-                dtinfo1.minute -= 1;
-            } else if dtinfo1.second > 60 {
-                dtinfo1.second -= 60;
-                dtinfo1.minute += 1;
-            }
-
-            if dtinfo1.minute < 0 {
-                dtinfo1.minute += 60;
-                dtinfo1.hour -= 1;
-            } else if dtinfo1.minute > 60 {
-                dtinfo1.minute -= 60;
-                dtinfo1.hour += 1;
-            }
-
-            if dtinfo1.hour < 0 {
-                dtinfo1.hour += 24;
-                dtinfo1.day -= 1;
-            } else if dtinfo1.hour > 24 {
-                dtinfo1.hour -= 24;
-                dtinfo1.day += 1;
-            }
+            dtinfo1.shift_to_utc();
         }
 
         dtinfo1.total_seconds = dtinfo1.hour * SECS_PER_HOUR as i32
@@ -241,35 +237,7 @@ pub fn precise_diff<'py>(
         dtinfo2.microsecond = dt2dt.get_microsecond() as i32;
 
         if !in_same_tz && dtinfo2.offset != 0 || total_days == 0 {
-            dtinfo2.hour -= dtinfo2.offset / SECS_PER_HOUR as i32;
-            dtinfo2.offset %= SECS_PER_HOUR as i32;
-            dtinfo2.minute -= dtinfo2.offset / SECS_PER_MIN as i32;
-            dtinfo2.offset %= SECS_PER_MIN as i32;
-            dtinfo2.second -= dtinfo2.offset;
-
-            if dtinfo2.second < 0 {
-                dtinfo2.second += 60;
-                dtinfo2.minute -= 1;
-            } else if dtinfo2.second > 60 {
-                dtinfo2.second -= 60;
-                dtinfo2.minute += 1;
-            }
-
-            if dtinfo2.minute < 0 {
-                dtinfo2.minute += 60;
-                dtinfo2.hour -= 1;
-            } else if dtinfo2.minute > 60 {
-                dtinfo2.minute -= 60;
-                dtinfo2.hour += 1;
-            }
-
-            if dtinfo2.hour < 0 {
-                dtinfo2.hour += 24;
-                dtinfo2.day -= 1;
-            } else if dtinfo2.hour > 24 {
-                dtinfo2.hour -= 24;
-                dtinfo2.day += 1;
-            }
+            dtinfo2.shift_to_utc();
         }
 
         dtinfo2.total_seconds = dtinfo2.hour * SECS_PER_HOUR as i32
